@@ -203,6 +203,16 @@ int main(void) {
             if (!fail) { if (osz[0] == osz[1] && !memcmp(out[0], out[1], osz[0])) printf("same %zu\n", osz[0]);
                 else { size_t k = 0; while (k < osz[0] && k < osz[1] && out[0][k] == out[1][k]) k++; printf("DIFF at byte %zu (fresh %zu bytes, variant %zu bytes)\n", k, osz[0], osz[1]); } }
             free(srcbuf); free(out[0]); free(out[1]); free(staticMem);
+        } else if (!strcmp(op, "wupd")) {
+            /* wupd <B0> <ip:size:force,...> : ZSTD_window_update fed with segments at the given offsets of the address-space reservation (nothing is dereferenced);
+             * the window starts as ZSTD_window_init leaves it -> per segment c<contiguous>/<base>/<dictBase>/<nextSrc>/<lowLimit>/<dictLimit> (tie: Model/WindowUpdate.lean) */
+            long long b0 = strtoll(strtok(NULL, " "), NULL, 10); char* segs = strtok(NULL, " "); ZSTD_window_t w; char* sv = NULL; char* t; int first = 1;
+            memset(&w, 0, sizeof w); w.base = map + b0; w.dictBase = map + b0; w.dictLimit = ZSTD_WINDOW_START_INDEX; w.lowLimit = ZSTD_WINDOW_START_INDEX; w.nextSrc = w.base + ZSTD_WINDOW_START_INDEX;
+            for (t = segs ? strtok_r(segs, ",", &sv) : NULL; t; t = strtok_r(NULL, ",", &sv)) { long long ip; unsigned long long n; int force; U32 c;
+                if (sscanf(t, "%lld:%llu:%d", &ip, &n, &force) != 3) { printf("%sbad-seg", first ? "" : " "); break; }
+                c = ZSTD_window_update(&w, map + ip, (size_t)n, force);
+                printf("%sc%u/%lld/%lld/%lld/%u/%u", first ? "" : " ", c, (long long)(w.base - map), (long long)(w.dictBase - map), (long long)(w.nextSrc - map), w.lowLimit, w.dictLimit); first = 0; }
+            printf("\n");
         } else printf("bad-op\n");
         fflush(stdout);
     }
